@@ -5,6 +5,7 @@ PROP = "C04"
 FILE = "xh_C04.py"
 FUNCTIONS = ["SMSimfile._parse", "SSCSimfile._parse", "BaseSimfile.serialize", "SMChart.serialize", "SSCChart.serialize", "BaseCharts.serialize"]
 ASSUMPTIONS = [
+    "escapes_real[...] obligations: exhaustive concrete enumeration with the REAL msdparser serializer and lexer (not solver-decided; the parameter-level obligations replace MSDParameter by a recorder and cannot see escaping)",
     "'a text the loader accepts' is, modulo the tokenizer, an arbitrary parameter stream: 2 symbolic parameters (11 key spellings incl. lower case, duplicates, key-only, multi-component, NOTES with 5..7 components) after 7 concrete prefixes",
     "msdparser is the environment (StubParam recorder); the corpus files go through the real tokenizer and serializer concretely",
 ]
@@ -22,8 +23,10 @@ def obligations(tier):
             pfxs, k1s = range(7), range(13)
         for pfx in pfxs:
             for k1 in k1s:
+                if tier == "quick" and f == "cycle_ssc" and k1 in (1, 10) and pfx != 0:
+                    continue   # the lower-case / mixed-case spellings run after the empty prefix only in the quick tier
                 for n1 in range(4):
-                    obs.append(dict(name=f"{f}[prefix{pfx},k1={k1},n1={n1}]", func=f, pre=f"pfx == {pfx} and k1 == {k1} and n1 == {n1}", timeout=(3 * T if (k1 == 2 and n1 == 3) else T),
+                    obs.append(dict(name=f"{f}[prefix{pfx},k1={k1},n1={n1}]", func=f, pre=f"pfx == {pfx} and k1 == {k1} and n1 == {n1}", timeout=(3 * T if (k1 == 2 and n1 == 3) else 2 * T if (k1 == 2 and n1 == 2) else T),
                                     bounds="parse -> serialize -> parse -> serialize on a parameter stream with 2 symbolic parameters; one symbolic component <=2 arbitrary chars, the others concrete"))
     obs.append(dict(name="corpus", func="corpus", timeout=T, bounds="the five corpus files, real tokenizer"))
     if tier == "quick":
@@ -40,9 +43,15 @@ def signature(ob, res):
 
 def replay(data):
     from vlib import xh
+    if data.get("func") == "ob_escapes":
+        from harness import escconf
+        return escconf.replay(data)
     return xh.replay("xh_C04", data)
 
 
 def main(tier):
-    return xhprop.main(PROP, tier, FILE, obligations(tier), FUNCTIONS, ASSUMPTIONS, OUTSIDE, signature,
+    from vlib import core
+    from harness import escconf
+    extra = core.run_obligations("harness.escconf", escconf.obligations("both"))
+    return xhprop.main(PROP, tier, FILE, obligations(tier), FUNCTIONS, ASSUMPTIONS, OUTSIDE, signature, extra_results=extra,
                        bounds="parameter streams of <=5 parameters (2 symbolic), components <=2 chars, both formats; 5 corpus files")
